@@ -69,7 +69,7 @@ for sid in ids:
         shutil.rmtree(out, ignore_errors=True)
     rows.append(row)
     print(row, flush=True)
-    json.dump(rows, open(f"{HERE}/seeded/SWEEP.json", "w"), indent=1)
+    json.dump(rows, open(os.environ.get("SWEEP_OUT") or f"{HERE}/seeded/SWEEP.json", "w"), indent=1)
 bad = [r["id"] for r in rows if not r["applies"] or not r["caught_by"] or r.get("demo_fails_with_change") is False]
 print(f"{len(rows)} seeded changes, {len(bad)} needing attention: {bad}")
 sys.exit(1 if bad else 0)
